@@ -267,6 +267,17 @@ pub fn plan(property: &str, tier: &str) -> Option<CheckSpec> {
             g2.max_spans = 2;
             g2.allow_noop = false;
             let n2 = b.add_gen(&g2, 1, &[false, true], &rules, 2_000_000);
+            // parent lists in every order, with a no-op span and duplicates among the parents
+            let mut g3 = GenCfg::base("C02-parents");
+            g3.traces = g.traces.clone();
+            g3.max_spans = 4;
+            g3.max_parents = 3;
+            g3.ordered_parents = true;
+            g3.dup_parent = true;
+            g3.allow_noop = true;
+            g3.max_len = if quick { 4 } else { 5 };
+            let n3 = b.add_gen(&g3, if quick { 0 } else { 1 }, &[false, true], &rules, 2_000_000);
+            let n1 = n1 + n3;
             rule_text = format!("bounded-exhaustive generated programs ({n1} single-actor + {n2} two-actor lock-step) x every placement of 1 atomic collector cycle at a ring-push boundary x both configurations; non-trivial: a collector cycle falls between the first and last queue command");
             bound_text = format!("<= {} spans, <= {} local spans, scope depth <= 2, <= {} operations; 1 cycle placed anywhere + final flush", g.max_spans, g.max_locals, g.max_len);
         }
@@ -314,7 +325,8 @@ pub fn plan(property: &str, tier: &str) -> Option<CheckSpec> {
         "C10" => {
             let rules = [Rule::Liveness, Rule::NoPanic, Rule::Ctx, Rule::Tree, Rule::Attach, Rule::NoExtra, Rule::Deliver];
             let mut g = GenCfg::base("C10");
-            g.traces = vec![TraceOpt { trace: 0x10A, sampled: true, remote_parent: 0 }, TraceOpt { trace: 0x10B, sampled: true, remote_parent: 0 }];
+            g.traces = vec![TraceOpt { trace: 0x10A, sampled: true, remote_parent: 0 }, TraceOpt { trace: 0x10B, sampled: false, remote_parent: 0 }];
+            g.any_trace_order = true;
             g.max_spans = 2;
             g.allow_scope = true;
             g.allow_lc = true;
@@ -375,6 +387,11 @@ pub fn plan(property: &str, tier: &str) -> Option<CheckSpec> {
             g.allow_inert_local = false;
             g.max_len = if quick { 6 } else { 8 };
             let n1 = b.add_gen(&g, 1, &[false, true], &rules, 3_000_000);
+            let lp = late_push_programs();
+            let n1 = n1 + lp.len() as u64;
+            for c in [false, true] {
+                b.add_batch(lp.iter().map(|p| p.clone().collector(if quick { 1 } else { 2 }, true, 0)).collect(), c, false, &rules);
+            }
             rule_text = format!("{n1} generated programs: captured local-span forests (open or closed spans, attachments) pushed to up to 3 parents in 2 traces and converted with to_span_records, x 1 collector cycle anywhere x both configurations");
             bound_text = format!("<= {} captured local spans, <= {} attachments, <= 3 parents, <= {} operations", g.max_locals, g.max_attach, g.max_len);
         }
@@ -513,9 +530,13 @@ pub fn plan(property: &str, tier: &str) -> Option<CheckSpec> {
                     b.add("SCHED", scenario(&s, 2).unwrap(), c, Some(bound), &rules, true);
                 }
             }
+            // an instrumented reporter: report() itself traces (on the collector's thread)
+            for s in ["S1+rt", "S3+w+rt", "S7+rt"] {
+                b.add("SCHED", scenario(s, 2).unwrap(), false, Some(bound), &rules, true);
+            }
             rule_text = format!("{n1} hostile call sequences (no-op / unsampled / all-no-op parents / no local parent / under a local collector / re-used contexts) in three process states (no reporter, default, cancelable); {n2} re-entrant programs (every closure-taking call x calls issued from inside the closure); {n3} limit programs (4096 scopes, 10240 local spans, full ring); {n4} thread-teardown programs (calls from thread-local destructors registered before/after fastrace's own thread-locals, thread traced before or not); multi-threaded scenarios with the collector parked at each of its points");
             bound_text = format!("call sequences <= {}; scenarios: preemptions <= {bound}", g.max_len);
-            assumptions.push("harness built with debug assertions and overflow checks on (as the test suite's dev profile); a call that does not return within 20 s counts as blocked".into());
+            assumptions.push("harness built with debug assertions and overflow checks on (as the test suite's dev profile); a call that does not return within 5 s counts as blocked".into());
         }
         "C16" => {
             let rules = [Rule::Liveness, Rule::NoPanic, Rule::Lazy, Rule::Elapsed, Rule::Ctx, Rule::NoExtra, Rule::Deliver];
